@@ -1118,16 +1118,18 @@ def _i_isinstance(it, args, kw, node, fi):
         if isinstance(c, ClassRef):
             if isinstance(obj, Obj) and obj.cls is not None and c.cls in it.model.mro(obj.cls):
                 return True
-        elif isinstance(c, External):
-            name = c.dotted.split(".")[-1]
+        elif isinstance(c, (External, Intrinsic)):
+            name = c.dotted.split(".")[-1] if isinstance(c, External) else c.name
             if name in ("int",) and isinstance(obj, Fraction) and obj.denominator == 1:
                 return True
             if name in ("float",) and isinstance(obj, Fraction):
                 return True
             if name == "str" and isinstance(obj, str):
                 return True
-            if name in ("tuple", "list") and isinstance(obj, (tuple, list)):
-                return isinstance(obj, tuple) if name == "tuple" else isinstance(obj, list)
+            if name == "tuple" and isinstance(obj, tuple):
+                return True
+            if name == "list" and isinstance(obj, list):
+                return True
             if name == "dict" and isinstance(obj, dict):
                 return True
             if name == "Tensor" and isinstance(obj, (Rat, Cat)):
